@@ -92,6 +92,13 @@ def load_scn_file(path, prefix=""):
 def judge(pid, scns, res, chk, stats):
     for s in scns:
         drv, rep, rc, err = res.get(s["id"], (None, None, 1, ""))
+        if rc == "hang":
+            # the real library neither returned nor made a system call for SINGLE_TIMEOUT seconds of wall time
+            stats["n"] += 1
+            stats["div"].append((s, "E1: the library never returned in scenario %s (watchdog)" % s["id"]))
+            chk.violation("[%s %s] HANG: the call never returned and issued no further system call for %d s of wall time (busy loop or blocked for good)" % (
+                s["id"], s.get("klass", ""), e1.SINGLE_TIMEOUT), s["text"])
+            continue
         if s["kind"] == "comm":
             fails, div, facts = e1.monitors_comm(s, drv, rep)
         else:
